@@ -15,6 +15,8 @@ def rhs(t, y, **kw):
 def main():
     req = json.loads(sys.stdin.read())
     import desolver as de
+    from monitor import watchdog
+    watchdog.install(de)
     from desolver import integrators as I
     failures, cases = {}, 0
 
